@@ -363,3 +363,66 @@ def standard_probes():
     p.line(bc.bin_completion, "best_solution_so_far = cb.bins", "bc.incumbent_updates")
     p.line(bc.bin_completion, "return bfd_solution", "bc.bfd_was_optimal")
     return p
+
+
+# =============================================================================== M3 in situ: bins-array invariant at the manager's own operations
+class BinsInvariant:
+    """
+    "Invariant at a hook": while REAL algorithms run, every operation of the contents-keeping manager that creates or mutates a bins-array is followed by a check
+    that, in the array it touched, every bin's sum equals the total value of the items recorded in that bin (and sums / lists have the same length).
+    Refuting observations are recorded (the monitored code continues); the caller turns them into violations of C06/C16's statement.
+    """
+    OPS = ("add_item_to_bin", "combine_bins", "sort_by_ascending_sum", "copy_bins", "concatenate_bins", "remove_bins", "new_bins")
+
+    def __init__(self):
+        self.checked = Counter()
+        self.broken = []
+        self._saved = []
+
+    def _check(self, binner, arr, op):
+        try:
+            sums, lists = arr
+        except Exception:
+            return
+        self.checked[op] += 1
+        if len(sums) != len(lists):
+            self._rec(op, "sums and lists have different lengths", sums, lists)
+            return
+        for i, (s_, b) in enumerate(zip(sums, lists)):
+            if float(s_) != float(sum(map(binner.valueof, b))):
+                self._rec(op, f"bin {i}: sum {float(s_)} but contents total {float(sum(map(binner.valueof, b)))}", sums, lists)
+                return
+
+    def _rec(self, op, what, sums, lists):
+        if len(self.broken) < 10:
+            self.broken.append({"after_operation": op, "what": what, "sums": [float(x) for x in sums][:12], "lists": [list(map(repr, b)) for b in lists][:12]})
+
+    def install(self):
+        prtpy = import_prtpy()
+        cls = prtpy.BinnerKeepingContents
+        me = self
+        for op in self.OPS:
+            orig = getattr(cls, op)
+
+            def make(op, orig):
+                def wrapper(self, *a, **k):
+                    out = orig(self, *a, **k)
+                    target = out if op in ("copy_bins", "concatenate_bins", "remove_bins", "new_bins") else (a[0] if a else k.get("bins", k.get("bins1")))
+                    if op == "add_item_to_bin":
+                        target = out
+                    me._check(self, target, op)
+                    return out
+                wrapper.__name__ = op
+                return wrapper
+            self._saved.append((cls, op, orig))
+            setattr(cls, op, make(op, orig))
+        return self
+
+    def uninstall(self):
+        for cls, op, orig in reversed(self._saved):
+            setattr(cls, op, orig)
+        self._saved = []
+
+    def take_broken(self):
+        b, self.broken = self.broken, []
+        return b
